@@ -273,6 +273,16 @@ inline GraphInfo buildGraph(nifly::NifFile& nif, Tape& t, size_t vi, bool allowP
 		const bool moveRoot = t.chance(64);
 		for (uint32_t i = n - 1; i > (moveRoot ? 0u : 1u); i--)
 			std::swap(perm[i], perm[(moveRoot ? 0u : 1u) + t.u16() % (i + 1 - (moveRoot ? 0u : 1u))]);
+		// This library takes block 0 (if it is a node) or else the first node in block order for the
+		// root: keep the real root ahead of every other node so that the model stays well-formed
+		{
+			uint32_t rootPos = perm[0];
+			for (uint32_t i = 1; i < n; i++)
+				if (hdr.GetBlock<NiNode>(i) && perm[i] < rootPos) {
+					std::swap(perm[0], perm[i]);
+					rootPos = perm[0];
+				}
+		}
 		hdr.SetBlockOrder(perm);
 		gi.add("permuted-order");
 		if (perm[0] != 0) {
